@@ -287,6 +287,8 @@ def show_atom(a, depth=0):
     if tag == "mcall":
         args = [show_key(x, depth + 1) for x in a[3]] + ["%s=%s" % (k, show_key(x, depth + 1)) for k, x in a[4]]
         return "%s.%s(%s)" % (show_key(a[2], depth + 1), a[1], ", ".join(args))
+    if tag == "strcat":
+        return "str(" + " + ".join(repr(x[1]) if (isinstance(x, tuple) and len(x) == 2 and x[0] == "lit") else show_key(x, depth + 1) for x in a[1]) + ")"
     if tag == "upd":
         args = [show_key(x, depth + 1) for x in a[3]] + ["%s=%s" % (k, show_key(x, depth + 1)) for k, x in a[4]]
         return "%s«%s(%s)»" % (show_key(a[2], depth + 1), a[1], ", ".join(args))
@@ -460,6 +462,48 @@ def _cond_alternatives(v):
                 out.append((g, Poly.atom(("call", a[1], (vkey(v2),), ()))))
         return out
     return None
+
+
+def _str_pieces(v):
+    """Pieces of a string-valued abstract value in canonical form, or None: python str -> [str]; strcat atom -> its
+    pieces (literals as python str, values as keys)."""
+    if isinstance(v, str):
+        return [v]
+    if isinstance(v, Poly):
+        a = v.as_atom()
+        if a is not None and a[0] == "strcat":
+            return [x[1] if (isinstance(x, tuple) and len(x) == 2 and x[0] == "lit") else x for x in a[1]]
+    return None
+
+
+def make_str(pieces):
+    """Canonical string value: adjacent literals merged, nested concatenations flattened; a pure literal is a python
+    str; otherwise the atom ("strcat", (("lit", text) | value-key, ...)).  f-strings, str.format, str() and `+` on
+    strings all build this one form."""
+    flat = []
+    for p in pieces:
+        if isinstance(p, str):
+            if p == "":
+                continue
+            if flat and isinstance(flat[-1], str):
+                flat[-1] += p
+            else:
+                flat.append(p)
+        else:
+            flat.append(p)
+    if not flat:
+        return ""
+    if len(flat) == 1 and isinstance(flat[0], str):
+        return flat[0]
+    return Poly.atom(("strcat", tuple(("lit", x) if isinstance(x, str) else x for x in flat)))
+
+
+def _piece_of(v):
+    """What a value contributes when it is formatted into a string."""
+    ps = _str_pieces(v)
+    if ps is not None:
+        return ps
+    return [vkey(v)]
 
 
 def abstract_len(v):
@@ -1222,6 +1266,11 @@ class Frame:
                 return ATuple(a.items + b.items)
             if isinstance(a, str) and isinstance(b, str):
                 return a + b
+            if (isinstance(a, str) or _str_pieces(a) is not None) and (isinstance(b, str) or _str_pieces(b) is not None):
+                return make_str(_str_pieces(a) + _str_pieces(b))
+            if isinstance(a, str) or isinstance(b, str):
+                # text + value: the value is a string here (python would raise otherwise)
+                return make_str(_piece_of(a) + _piece_of(b))
             if isinstance(a, (AList, ATuple)) or isinstance(b, (AList, ATuple)):
                 return Poly.atom(("call", "concat", (vkey(a), vkey(b)), ()))
             return as_term(a) + as_term(b)
@@ -1319,7 +1368,15 @@ class Frame:
         return d
 
     def e_JoinedStr(self, e, st):
-        return Poly.atom(("fstr", ast.unparse(e)))
+        pieces = []
+        for part in e.values:
+            if isinstance(part, ast.Constant) and isinstance(part.value, str):
+                pieces.append(part.value)
+            elif isinstance(part, ast.FormattedValue) and part.format_spec is None and part.conversion in (-1, 115):
+                pieces += _piece_of(self.eval(part.value, st))
+            else:
+                return Poly.atom(("fstr", ast.unparse(e)))
+        return make_str(pieces)
 
     def e_Lambda(self, e, st):
         # canonical parameter names, so that renaming a lambda's parameter is invisible
@@ -1497,6 +1554,8 @@ class Frame:
     def call_named(self, dotted, shown, args, kwargs, st, node):
         name = self.canonical_name(dotted)
         short = name.split(".")[-1]
+        if dotted == "str" and len(args) == 1 and not kwargs and "str" not in st.env:
+            return make_str(_piece_of(args[0]))
         # numpy in-place idioms are canonicalised to one effect: store_content(destination, value)
         if name == "np.copyto" and len(args) >= 2:
             self.I.events.append(Event("store_content", [args[0], args[1]], {}, st.guards, node))
@@ -1701,6 +1760,29 @@ class Frame:
 
     def call_method(self, recv, f, args, kwargs, st, node):
         name = f.attr
+        if isinstance(recv, str) and name == "format":
+            import string
+
+            try:
+                pieces, auto = [], 0
+                for lit, field, spec, conv in string.Formatter().parse(recv):
+                    if lit:
+                        pieces.append(lit)
+                    if field is None:
+                        continue
+                    if spec or conv not in (None, "s") or any(c in field for c in ".[") :
+                        raise ValueError("format spec")
+                    if field == "":
+                        v = args[auto]
+                        auto += 1
+                    elif field.isdigit():
+                        v = args[int(field)]
+                    else:
+                        v = kwargs[field]
+                    pieces += _piece_of(v)
+                return make_str(pieces)
+            except (ValueError, IndexError, KeyError):
+                pass
         # abstract containers
         if isinstance(recv, ASet) and name == "add" and len(args) == 1:
             name = "append"
@@ -2198,6 +2280,47 @@ class Valuation:
                 return float("-inf")
         if a in self.cache:
             return self.cache[a]
+        if t == "strcat":
+            # the text denoted in this scenario: conditional pieces resolved, nested concatenations flattened,
+            # adjacent literals merged — then one value per distinct text
+            flat = []
+
+            def put(x):
+                if isinstance(x, str):
+                    if flat and isinstance(flat[-1], str):
+                        flat[-1] += x
+                    elif x:
+                        flat.append(x)
+                else:
+                    flat.append(x)
+
+            def walk(piece, depth=0):
+                if isinstance(piece, tuple) and len(piece) == 2 and piece[0] == "lit":
+                    put(piece[1])
+                    return
+                ka = key_atom(piece) if isinstance(piece, tuple) else None
+                if ka is not None and ka[0] == "cond" and depth < 20:
+                    for g, v in ka[1]:
+                        if self.truth(g):
+                            walk(v, depth + 1)
+                            return
+                if ka is not None and ka[0] == "strcat" and depth < 20:
+                    for q in ka[1]:
+                        walk(q, depth + 1)
+                    return
+                if isinstance(piece, tuple) and piece and piece[0] == "const" and isinstance(piece[1], str) and piece[1][:1] in "'\"":
+                    try:
+                        put(ast.literal_eval(piece[1]))
+                        return
+                    except (ValueError, SyntaxError):
+                        pass
+                put(("v", self.image(piece)))
+
+            for q in a[1]:
+                walk(q)
+            r = self.rand(("strcat", tuple(flat)))
+            self.cache[a] = r
+            return r
         # graph library synonyms: the in/out-degree of a node is the number of its predecessors / successors
         if t == "mcall" and a[1] in ("in_degree", "out_degree") and len(a[3]) == 1 and not a[4]:
             other = ("mcall", "predecessors" if a[1] == "in_degree" else "successors", a[2], a[3], ())
